@@ -106,7 +106,11 @@ class InsecureHomeKitProtocol(asyncio.Protocol):
         self.transport = transport
 
     def connection_lost(self, exception: Exception) -> None:
-        self.connection._connection_lost(exception)
+        # Only the loss of the connection currently in use concerns the
+        # HomeKitConnection. A connection it has already dropped (or replaced)
+        # must not tear down its successor or start another connector.
+        if self.connection.protocol is self:
+            self.connection._connection_lost(exception)
         self._cancel_pending_requests()
 
     def _handle_timeout(self, fut: asyncio.Future[Any]) -> None:
